@@ -142,7 +142,7 @@ def _decorator_names(node):
 class Project:
     PKG = "resonaate"
 
-    def __init__(self, repo="/repo"):
+    def __init__(self, repo="/repo", alpha=True):
         self.repo = os.path.abspath(repo)
         self.src = os.path.join(self.repo, "src")
         self.modules: dict[str, ModuleInfo] = {}
@@ -153,6 +153,11 @@ class Project:
         self._mro_cache = {}
         self._parse_all()
         self._link()
+        self.alpha_stats = {}
+        if alpha:
+            from rsa import alpha as _alpha
+
+            self.alpha_stats = _alpha.normalise(self)
 
     # ------------------------------------------------------------------ parsing
     def _parse_all(self):
